@@ -167,7 +167,10 @@ func runC08(c *core.Ctx) {
 	}
 	// extreme coordinates: index arithmetic such as x+y*width must not wrap into range
 	for _, xy := range [][2]int{{math.MaxInt, 0}, {0, math.MaxInt}, {math.MaxInt, math.MaxInt}, {math.MinInt, 0}, {0, math.MinInt}, {math.MinInt, math.MinInt},
-		{math.MaxInt/2 + 1, 2}, {1, math.MaxInt/2 + 1}, {-1, math.MaxInt}, {w, math.MinInt}} {
+		{math.MaxInt/2 + 1, 2}, {1, math.MaxInt/2 + 1}, {-1, math.MaxInt}, {w, math.MinInt},
+		// coordinates whose product with the width or the height wraps around 2^64 to a small number
+		{0, wrapCoord(w, 0)}, {1, wrapCoord(w, 1)}, {wrapCoord(h, 0), 0}, {wrapCoord(h, 1), 1}, {0, wrapCoord(w*h, 0)},
+		{0, 1 << 62}, {0, 1 << 61}, {0, 1 << 60}, {1 << 62, 0}, {0, math.MaxInt/3 + 1}, {math.MaxInt/3 + 1, 0}, {0, -(1 << 62)}, {0, 1 << 32}, {1 << 32, 1 << 32}} {
 		pg, _ := core.Catch(func() { a.Get(xy[0], xy[1]) })
 		ps, _ := core.Catch(func() { a.Set(xy[0], xy[1], -7) })
 		pr, _ := core.Catch(func() { a.Row(xy[1]) })
@@ -390,14 +393,21 @@ func runC08(c *core.Ctx) {
 	// 7. New2DFromJagged: shorter/longer rows, fewer/more rows
 	for k := 0; k < 3; k++ {
 		rows := r.Range(0, h+2)
+		exact := k == 0 && r.Bool() // exactly height rows of exactly width values: the habitat of fast paths
+		if exact {
+			rows = h
+		}
 		jag := make([][]int, rows)
 		gj := newGrid(w, h)
 		for y := range jag {
-			if r.Chance(1, 6) {
+			if !exact && r.Chance(1, 6) {
 				jag[y] = nil
 				continue
 			}
 			n := r.Range(0, w+2)
+			if exact {
+				n = w
+			}
 			jag[y] = make([]int, n)
 			for x := range jag[y] {
 				jag[y][x] = fresh()
@@ -415,6 +425,33 @@ func runC08(c *core.Ctx) {
 		if !same("New2DFromJagged", ja, gj) {
 			return
 		}
+		// the array must be independent of the jagged input, both ways
+		jsnap := make([][]int, len(jag))
+		for y := range jag {
+			jsnap[y] = append([]int(nil), jag[y]...)
+		}
+		for y := 0; y < h; y++ {
+			for x := 0; x < w; x++ {
+				v := fresh()
+				ja.Set(x, y, v)
+				gj.m[y][x] = v
+			}
+		}
+		for y := range jag {
+			if !eqSlice(jag[y], jsnap[y]) {
+				fail("New2DFromJagged:shares-memory", fmt.Sprintf("writing to the array built by New2DFromJagged(%d,%d, rows of lengths %v) changed row %d of the jagged input", w, h, lens(jag), y))
+				return
+			}
+			for x := range jag[y] {
+				jag[y][x] = -31337
+			}
+		}
+		if !same("New2DFromJagged+input-overwritten", ja, gj) {
+			return
+		}
+		if exact {
+			c.Count("jagged_exact_rectangles", 1)
+		}
 		switch {
 		case rows > h:
 			c.Count("jagged_more_rows", 1)
@@ -428,6 +465,23 @@ func runC08(c *core.Ctx) {
 	if !checkString("final", a, g) {
 		return
 	}
+	// the same cell model over other element types (every 4th random case)
+	if c.Index >= 49 && c.Index%4 == 1 {
+		ok := true
+		switch (c.Index / 4) % 4 {
+		case 0:
+			ok = arrTyped(c, "[20]int64", func(i int) [20]int64 { return [20]int64{int64(i), 19: int64(-i)} })
+		case 1:
+			ok = arrTyped(c, "string", func(i int) string { return fmt.Sprint("s", i) })
+		case 2:
+			ok = arrTyped(c, "uint8", func(i int) uint8 { return uint8(i%255 + 1) })
+		case 3:
+			ok = arrTyped(c, "struct{a uint8; b string}", func(i int) c08rec { return c08rec{uint8(i), fmt.Sprint(i)} })
+		}
+		if !ok {
+			return
+		}
+	}
 	c.Count("cases_completed", 1)
 	if w >= 1 && h >= 1 {
 		c.NonTrivial(core.Mix(uint64(w), uint64(h), core.HashString(strings.Join(hist, ";"))))
@@ -439,6 +493,140 @@ func runC08(c *core.Ctx) {
 		}
 		c.Sample(map[string]any{"shape": shape, "calls": len(hist), "history_prefix": hs})
 	}
+}
+
+type c08rec struct {
+	a uint8
+	b string
+}
+
+// arrTyped: width x height independent cells for an arbitrary comparable element type.
+func arrTyped[T comparable](c *core.Ctx, tname string, val func(i int) T) bool {
+	r := c.R
+	w, h := r.Range(0, 40), r.Range(0, 40)
+	if r.Chance(1, 3) {
+		w, h = r.Range(1, 6), r.Range(1, 6)
+	}
+	var zero T
+	model := make([][]T, h)
+	for y := range model {
+		model[y] = make([]T, w)
+	}
+	var a arrays.Array2D[T]
+	var last string
+	fail := func(sig, msg string) bool {
+		c.Violate(sig+"["+tname+"]", fmt.Sprintf("%s [element type %s, shape %dx%d, after %s]", msg, tname, w, h, last), nil)
+		return false
+	}
+	switch r.Intn(3) {
+	case 0:
+		a = arrays.New2D[T](w, h)
+		last = "New2D"
+	case 1:
+		v := val(7)
+		a = arrays.New2DFilled(w, h, v)
+		for y := range model {
+			for x := range model[y] {
+				model[y][x] = v
+			}
+		}
+		last = "New2DFilled"
+	case 2:
+		jag := make([][]T, r.Range(0, h+2))
+		for y := range jag {
+			jag[y] = make([]T, r.Range(0, w+2))
+			for x := range jag[y] {
+				jag[y][x] = val(1000 + y*50 + x)
+				if y < h && x < w {
+					model[y][x] = jag[y][x]
+				}
+			}
+		}
+		a = arrays.New2DFromJagged(w, h, jag)
+		last = "New2DFromJagged"
+	}
+	same := func(arr arrays.Array2D[T], m [][]T) bool {
+		if arr.Width() != w || arr.Height() != h {
+			return fail("shape", fmt.Sprintf("Width/Height = %d/%d", arr.Width(), arr.Height()))
+		}
+		for y := 0; y < h; y++ {
+			row := arr.Row(y)
+			if len(row) != w {
+				return fail("Row:length", fmt.Sprintf("Row(%d) has length %d", y, len(row)))
+			}
+			for x := 0; x < w; x++ {
+				if g := arr.Get(x, y); g != m[y][x] || row[x] != m[y][x] {
+					return fail("cell", fmt.Sprintf("cell (%d,%d): Get gives %v, Row gives %v, model %v", x, y, g, row[x], m[y][x]))
+				}
+			}
+		}
+		return true
+	}
+	if !same(a, model) {
+		return false
+	}
+	if w == 0 || h == 0 {
+		c.Count("typed_arrays_"+tname, 1)
+		return true
+	}
+	for i := 0; i < 40; i++ {
+		x1, x2, y1, y2 := r.Intn(w), r.Intn(w), r.Intn(h), r.Intn(h)
+		v := val(i + 1)
+		switch r.Intn(6) {
+		case 0, 1:
+			last = fmt.Sprintf("Set(%d,%d)", x1, y1)
+			a.Set(x1, y1, v)
+			model[y1][x1] = v
+		case 2:
+			last = fmt.Sprintf("Fill(%d,%d,%d,%d)", x1, y1, x2, y2)
+			a.Fill(x1, y1, x2, y2, v)
+			for y := min(y1, y2); y <= max(y1, y2); y++ {
+				for x := min(x1, x2); x <= max(x1, x2); x++ {
+					model[y][x] = v
+				}
+			}
+		case 3:
+			last = fmt.Sprintf("write through Row(%d)[%d]", y1, x1)
+			a.Row(y1)[x1] = v
+			model[y1][x1] = v
+		case 4:
+			lo, hi := min(x1, x2), max(x1, x2)
+			last = fmt.Sprintf("write through RowSpan(%d,%d,%d)", lo, hi, y1)
+			sp := a.RowSpan(lo, hi, y1)
+			if len(sp) == 0 {
+				continue
+			}
+			k := r.Intn(len(sp))
+			sp[k] = v
+			model[y1][lo+k] = v
+		case 5:
+			last = "Clone + writes to the clone"
+			cl := a.Clone()
+			if !same(cl, model) {
+				return false
+			}
+			cl.Set(x1, y1, val(424242))
+			cl.Fill(0, 0, w-1, h-1, zero)
+		}
+		if !same(a, model) {
+			return false
+		}
+	}
+	c.Count("typed_arrays_"+tname, 1)
+	return true
+}
+
+// wrapCoord returns a positive coordinate c with c*d == 2^64 + small (mod 2^64 a number
+// in [0, d)), plus k; math.MaxInt when no such int exists (d < 3).
+func wrapCoord(d, k int) int {
+	if d < 3 {
+		return math.MaxInt
+	}
+	q := math.MaxUint64/uint64(d) + 1
+	if q > math.MaxInt {
+		return math.MaxInt
+	}
+	return int(q) + k
 }
 
 func shapeClass(w, h int) string {
